@@ -1124,6 +1124,13 @@ class Interp:
                 for a in x.get("arms") or []:
                     for q in self.binds(a.get("pat")):
                         bm[q["id"]] = x.get("e")
+            elif k == "mcall":
+                # |e| .. handed to an adapter: e comes out of the receiver
+                for a in x.get("args") or []:
+                    if isinstance(a, dict) and a.get("k") == "closure":
+                        for pp in a.get("params") or []:
+                            for q in self.binds(pp):
+                                bm[q["id"]] = x.get("recv")
         self._bm = bm
         return bm
 
